@@ -2504,6 +2504,8 @@ EbErrorType decode_multiple_obu(EbDecHandle *dec_handle_ptr, uint8_t **data, siz
             status = read_obu_size(&bs, data_size, &obu_header.payload_size, &length_size);
             if (status != EB_ErrorNone)
                 return status;
+            if (data_size < length_size)
+                return EB_Corrupt_Frame;
 
             *data += length_size;
             data_size -= length_size;
@@ -2518,6 +2520,9 @@ EbErrorType decode_multiple_obu(EbDecHandle *dec_handle_ptr, uint8_t **data, siz
             obu_header.payload_size -= obu_header.size;
 
         payload_size = obu_header.payload_size;
+
+        if (data_size < (obu_header.size + length_size))
+            return EB_Corrupt_Frame;
 
         *data += (obu_header.size + length_size);
         data_size -= (obu_header.size + length_size);
@@ -2635,8 +2640,11 @@ EB_API EbErrorType svt_get_sequence_info(const uint8_t *obu_data, size_t size,
         if (status != EB_ErrorNone)
             return status;
 
+        if (frame_sz < (ou.size + length_size))
+            return EB_Corrupt_Frame;
+
         frame_buf += ou.size + length_size;
-        frame_sz -= (uint32_t)(ou.size + length_size);
+        frame_sz -= (ou.size + length_size);
 
         if (ou.obu_type == OBU_SEQUENCE_HEADER) {
             // check the ou type and parse sequence header
@@ -2644,6 +2652,9 @@ EB_API EbErrorType svt_get_sequence_info(const uint8_t *obu_data, size_t size,
             if (status == EB_ErrorNone)
                 return status;
         }
+
+        if (frame_sz < ou.payload_size)
+            return EB_Corrupt_Frame;
 
         frame_buf += ou.payload_size;
         frame_sz -= ou.payload_size;
